@@ -314,8 +314,19 @@ func (tree *ObjectTree) Find(scopeIndex uint32, expr []byte) uint32 {
 func (tree *ObjectTree) findRelative(scopeIndex uint32, expr []byte) uint32 {
 	exprLen := len(expr)
 
+	// A dual-name prefix, or a multi-name prefix together with its SegCount
+	// byte, may precede the name segments. Step over them explicitly: a
+	// SegCount in the range 'A'-'Z' or '_' (paths with 65 or more segments)
+	// must not be mistaken for the first character of a name.
+	firstSegIndex := 0
+	if exprLen > 1 && expr[0] == 0x2e {
+		firstSegIndex = 1
+	} else if exprLen > 2 && expr[0] == 0x2f {
+		firstSegIndex = 2
+	}
+
 nextSegment:
-	for segIndex := 0; segIndex < exprLen; segIndex += amlNameLen {
+	for segIndex := firstSegIndex; segIndex < exprLen; segIndex += amlNameLen {
 		// If expr contains a dual or multinamed path then we may encounter special
 		// prefix chars in the stream (the parser extracts the raw data). In this
 		// case skip over them.
